@@ -281,7 +281,7 @@ theorem conserve_refund {cfg : Config} (ha : Assm cfg) {w w' : World} (hwi : WIn
   intro A cA B cB X hpeer hX hnp
   have hX' := good_peer_cons ha hpeer hX
   have hinv := hc A cA B cB X hpeer hX hnp
-  obtain ⟨hgood, hpath, hsp, _, _⟩ := hwi.sent p hp
+  obtain ⟨hgood, hpath, hsp, _, _, _⟩ := hwi.sent p hp
   have hF := pendingSum_resolve p (selF A cA X) hl hp hsent hwas hnow hothers
   have hB := pendingSum_resolve p (selB B cB X) hl hp hsent hwas hnow hothers
   have hcF := selF_iff (A := A) (cA := cA) (p := p) hX hgood rfl rfl hpath.symm
@@ -392,7 +392,7 @@ theorem conserve_recv_ok {cfg : Config} (ha : Assm cfg) {w w' : World} (hwi : WI
   intro A cA B cB X hpeer hX hnp
   have hX' := good_peer_cons ha hpeer hX
   have hinv := hc A cA B cB X hpeer hX hnp
-  obtain ⟨hgood, hpath, hsp, hdp, hpp⟩ := hwi.sent p hp
+  obtain ⟨hgood, hpath, hsp, hdp, hpp, _⟩ := hwi.sent p hp
   have hpp' := ha.peerSym _ _ _ _ hpp
   have hpeer' := ha.peerSym _ _ _ _ hpeer
   have hF := pendingSum_resolve p (selF A cA X) hl hp hsent hwas hnow hothers
@@ -413,8 +413,9 @@ theorem conserve_recv_ok {cfg : Config} (ha : Assm cfg) {w w' : World} (hwi : WI
       injection e with e1 e2
       exact ⟨e1.symm, e2.symm⟩
     obtain ⟨hdB, hdcB⟩ := hdst
+    subst hdB; subst hdcB
     have hsF : selF p.srcChain p.srcChan (extract p.data.denom) p = true := hcF.mpr ⟨rfl, rfl, rfl⟩
-    have hsB : selB B cB (extract p.data.denom) p = false := by
+    have hsB : selB p.dstChain p.dstChan (extract p.data.denom) p = false := by
       apply sel_false_of_not hcB
       rintro ⟨_, _, e⟩
       have := congrArg (fun d => d.trace.length) e
@@ -422,23 +423,23 @@ theorem conserve_recv_ok {cfg : Config} (ha : Assm cfg) {w w' : World} (hwi : WI
     simp [hsF, hsB] at hF hB
     rcases heff with ⟨hpT, _⟩ | ⟨hpF, _, hbal, hsup, _⟩
     · rw [hnp] at hpT; cases hpT
-    · rw [hchA, hchB, recvCoin_mint hpF] at *
-      simp only [hdB.symm, if_true]
-      rw [hsup, hdcB]
-      simp only [hop, if_true]
+    · rw [hchA, hchB]
+      rw [recvCoin_mint hpF] at hbal hsup
+      simp only [if_true]
+      rw [hsup]
+      simp only [hop, coin, if_true]
       have hbalA : (if p.srcChain = p.dstChain then ch' else w.chains p.srcChain).bank.bal
-            (cfg.escrowAddr transferPort p.srcChan) (coin cfg (extract p.data.denom)) =
-          (w.chains p.srcChain).bank.bal (cfg.escrowAddr transferPort p.srcChan) (coin cfg (extract p.data.denom)) := by
+            (cfg.escrowAddr transferPort p.srcChan) (Denom.ibcDenom cfg.hashHex (extract p.data.denom)) =
+          (w.chains p.srcChain).bank.bal (cfg.escrowAddr transferPort p.srcChan) (Denom.ibcDenom cfg.hashHex (extract p.data.denom)) := by
         split_ifs with hAc
         · rw [hbal, hAc]
-          have : ¬ (coin cfg (extract p.data.denom) =
+          have : ¬ (Denom.ibcDenom cfg.hashHex (extract p.data.denom) =
               Denom.ibcDenom cfg.hashHex ⟨⟨transferPort, p.dstChan⟩ :: (extract p.data.denom).trace, (extract p.data.denom).base⟩ ∧
               cfg.escrowAddr transferPort p.srcChan = r) := fun h => hrne _ _ h.2.symm
           simp [this]
         · rfl
       rw [hbalA]
-      rw [← hdB] at hinv
-      simp only [coin, hop, hdcB] at hinv ⊢
+      simp only [coin, hop] at hinv
       omega
   · have hsF : selF A cA X p = false := sel_false_of_not hcF condF
     by_cases condB : p.srcChain = B ∧ p.srcChan = cB ∧ extract p.data.denom = ⟨hop cB :: X.trace, X.base⟩
@@ -450,22 +451,23 @@ theorem conserve_recv_ok {cfg : Config} (ha : Assm cfg) {w w' : World} (hwi : WI
         injection e with e1 e2
         exact ⟨e1.symm, e2.symm⟩
       obtain ⟨hdA, hdcA⟩ := hdst
+      subst hdA; subst hdcA
       have hsB : selB p.srcChain p.srcChan X p = true := hcB.mpr ⟨rfl, rfl, hXe⟩
       simp [hsF, hsB] at hF hB
       rcases heff with ⟨hpT, _, hn2, _, hbal, hsup, _⟩ | ⟨hpF, _⟩
       · rw [hchA, hchB]
         have hcoin : ics20RecvCoinDenom cfg.hashHex transferPort p.srcChan transferPort p.dstChan p.data.denom = coin cfg X := by
           rw [recvCoin_unwind hpT, hXe]
+          rfl
         rw [hcoin] at hn2 hbal
         have hsupB : (if p.srcChain = p.dstChain then ch' else w.chains p.srcChain).bank.supply = (w.chains p.srcChain).bank.supply := by
           split_ifs with hBc
           · rw [hsup, hBc]
           · rfl
         rw [hsupB]
-        simp only [hdA.symm, if_true]
-        rw [hbal, ← hdcA, moveBal_esc_out ha _ _ _ _ _ hrne]
+        simp only [if_true]
+        rw [hbal, moveBal_esc_out ha _ _ _ _ _ hrne]
         simp only [and_self, if_true]
-        rw [← hdA, ← hdcA] at hinv
         simp only [coin] at hinv hn2 ⊢
         omega
       · rw [hXe] at hpF
@@ -493,13 +495,13 @@ theorem conserve_recv_ok {cfg : Config} (ha : Assm cfg) {w w' : World} (hwi : WI
               injection e' with e1 e2
               apply condB
               refine ⟨e1.symm, e2.symm, ?_⟩
-              have hd : extract p.data.denom = ⟨⟨transferPort, p.srcChan⟩ :: t, (extract p.data.denom).base⟩ := by
-                cases hh : extract p.data.denom with
-                | mk tr b => rw [hh] at ht; simp only at ht; rw [ht]
-              rw [hd, e]
-              simp only [hop, ht, List.tail_cons, e2]
-              rw [e] at ht
-              simp [ht]
+              rw [e, e2]
+              cases hh : extract p.data.denom with
+              | mk tr b =>
+                rw [hh] at ht
+                simp only at ht
+                subst ht
+                rfl
             simp [this]
           · rw [hbal]
             have : ¬ (coin cfg X = ics20RecvCoinDenom cfg.hashHex transferPort p.srcChan transferPort p.dstChan p.data.denom ∧
